@@ -120,6 +120,8 @@ Definition wrap (z : Z) : Z :=
   else if (int_max <? z)%Z then (z - 2 ^ GenAutoRemove.counter_bits)%Z else z.
 Definition int_dec (z : Z) : Z := wrap (z - 1).
 Definition dec_overflows (z : Z) : bool := (z - 1 <? int_min)%Z.
+(* the wrapper went from n to n': a decrement was executed (n' differs from n) and it left the range *)
+Definition counter_overflowed (bounded : bool) (n n' : Z) : bool := bounded && dec_overflows n && negb (n' =? n)%Z.
 
 (* ---------- what the interpreter takes from the headers ---------- *)
 
@@ -139,6 +141,12 @@ Definition gen_leafs (islist : bool) : leafs :=
           (GenAutoRemove.counter_removes_before_call islist) (GenAutoRemove.cond_removes_before_call islist)
           (GenAutoRemove.cond_passes_args islist)
           (GenAutoRemove.counter_state_shared islist) (GenAutoRemove.cond_state_shared islist).
+
+(* the counter wrapper of the tree this development started from, written out by hand:
+   `if(--data->triggerCount <= 0)` on a machine int, removal before the call
+   (kept so that the INT_MIN witness survives a repair of the header) *)
+Definition legacy_leafs : leafs :=
+  mkLeafs (fun dec n => (dec n, (dec n <=? 0)%Z)) true true true (fun w => w) true true.
 
 (* SPECIFICATION: the wrappers as C16 promises them, independent of the headers: an ideal
    counter (no overflow) that detaches with the max(n,1)-th trigger, detach before the call,
@@ -212,7 +220,7 @@ Section AInterp.
           let st0 := touch_helper (lf_counter_shared lf) (alog st (ATrig h a)) h in
           let n := cellk (cells st0) h in
           let '(n', due) := lf_step lf int_dec n in
-          let st1 := upd_cells (if lf_bounded lf && dec_overflows n then upd_ovfs st0 (h :: ovfs st0) else st0) (aset h n' (cells st0)) in
+          let st1 := upd_cells (if counter_overflowed (lf_bounded lf) n n' then upd_ovfs st0 (h :: ovfs st0) else st0) (aset h n' (cells st0)) in
           finish_wrapper (lf_counter_rbc lf) due st1 h c k0 k a
       | Some (k0, SCond c p wa) =>
           let st0 := touch_helper (lf_cond_shared lf) (alog st (ATrig h a)) h in
